@@ -19,12 +19,26 @@ DONE = {
  'C16': ("virtual clock: every sleep asks for the period, one number per own timer expiry counting from 0 per subscription, none after disposal, spawn failure -> exactly one Error of the injected kind", "3 C16"),
  'C17': ("no top-level step of any explored execution unwinds with a payload that is not the harness's own", "3 C17"),
 }
-NA = {
- 'C06': "check not built yet (pipeline enumerator) — will be claimed once ./check C06 exists",
- 'C13': "check not built yet (two-subscription product worlds with solo-replay differential)",
- 'C18': "check not built yet (threaded worlds under the baton scheduler)",
- 'C19': "check not built yet (threaded worlds under the baton scheduler)",
- 'C20': "check not built yet (three-build digest comparison)",
+DONE.update({
+ 'C06': ("demand-driven reference interpreter: values seen by f, exactly one completion inside the subscribing call, Iterator::next calls per iterator; pipe! arities 2..6 vs manual application", "3 C06"),
+ 'C13': ("differential, no expected values: the two-subscription run projected onto each subscription must be reproducible by identity in the solo world — same menus at every choice point, identical traces", "3 C13"),
+ 'C18': ("under the baton scheduler: greeted exactly once; merge delivers each handed-in datum exactly once; combine tuples complete and made of values actually sent; no panic; exactly one terminal, and in the all-complete case no data delivery in progress at its entry and none later", "3 C18"),
+ 'C19': ("under the baton scheduler: at most n data at the sink, exactly one Terminate at the sink, exactly one (direct) / at most one per member (through merge!) upstream", "3 C19"),
+ 'C20': ("the same exhaustive exploration executed by three builds (no tracing / tracing / tracing + recording subscriber): per-world execution counts, state counts and order-independent digests over choices, full traces, closure-invocation counters must be equal", "3 C20"),
+})
+NA = {}
+TECH = {
+ 'C06': "exhaustive enumeration of all pipelines up to a depth x all small inputs, real code vs reference interpreter",
+ 'C13': "stateless model checking of the two-subscription product world with a solo-replay differential oracle",
+ 'C18': "stateless model checking of real threads under a controlled (baton) scheduler, exhaustive up to a preemption bound (unbounded for the smallest configurations)",
+ 'C19': "stateless model checking of real threads under a controlled (baton) scheduler, exhaustive up to a preemption bound (unbounded for the smallest configurations)",
+ 'C20': "the same exhaustive choice-tree exploration run in three build configurations, digests compared",
+}
+NOTE = {
+ 'C18': "Trusted: interleavings are sequentially consistent at the granularity of the operators' shared-state accesses (feature `verif` stand-ins; every AtomicBool/AtomicUsize/ArcSwap access of merge/combine/take is a switch point) plus harness points (probe handler, disposed-flag read, thread start/exit/join); weaker-than-SC reorderings are out of reach; the scheduler's self-test (toy lost update) runs before every C18 check.",
+ 'C19': "Trusted: as C18 (sequentially consistent interleavings at the hooked accesses; preemption bound stated in the evidence).",
+ 'C20': "Trusted: the three builds come from the same harness sources; a TRACE-level subscriber that formats every field is installed in build (c) (the check verifies it recorded events); bounds as C17.",
+ 'C06': "Trusted: the reference interpreter (boring pull-based list semantics with demand counting); stage alphabet, parameters, inputs and depth as stated in the evidence.",
 }
 checks=[]
 for p in props:
@@ -43,8 +57,8 @@ for p in props:
         "text": f"Bounded exhaustive exploration of the real callbag closures: every environment behaviour (event order, puppet-source personalities, probe-sink reactions from inside every handler) up to a horizon of E top-level events and D deviations per execution, per world. Oracle: {what}. Every explored execution is an execution of the implementation; nothing is sampled.",
         "design_ref": f"DESIGN.md section {ref}"
       },
-      "level_note": "Trusted: the harness actors (puppets/probes/taps/mock nursery) are spec-conformant and deterministic (replays are checked for identical traces); bounds E/D/burst/data budget and the small integer alphabet as stated in the evidence; an execution is not examined beyond its first violation.",
-      "technique": "stateless explicit-execution model checking (exhaustive deviation-bounded DFS over environment choices, real code as transition function)"
+      "level_note": NOTE.get(i, "Trusted: the harness actors (puppets/probes/taps/mock nursery) are spec-conformant and deterministic (replays are checked for identical traces); bounds E/D/burst/data budget and the small integer alphabet as stated in the evidence; an execution is not examined beyond its first violation."),
+      "technique": TECH.get(i, "stateless explicit-execution model checking (exhaustive deviation-bounded DFS over environment choices, real code as transition function)")
     })
 m = {
  "version": 1,
@@ -53,7 +67,7 @@ m = {
    "guard": "cargo feature `verif` of the callbag crate",
    "enable": "the harness crate depends on callbag by path (harness/repo -> /repo); ./check builds the `verif` variant with `--features verif` (callbag/verif) into /verif/target/verif",
    "baseline_off_cmd": "cd /repo && cargo test --workspace --no-fail-fast --offline",
-   "source_commits": ["585ff51"],
+   "source_commits": ["585ff51", "cce3249"],
    "add_only": True
  },
  "engines": [
